@@ -289,6 +289,14 @@ def jobs(tier):
                   defines=["JOB_addConstraint"], slices=[S["addConstraint"]],
                   domain="every solver/constraint state; stub vectors with spare capacity (no reallocation model)",
                   expect=[r'postcondition', r'assigns']))
+    # ---- Solver::Solver: construction facts the chain relies on (body fragment unbounded + whole constructor bounded)
+    S["ctor"] = slice_func(SV, r'^Solver::Solver\(Variables const &vs, Constraints const &cs\)', "Solver::Solver")
+    h1, cb1 = fragment_loop(S["ctor"], r'for\(unsigned i=0;i<n;\+\+i\)', "Solver::Solver [first loop body]")
+    ctor_filled = fill(pre, SHIM_POSITION, SHIM_UPOSITION, SHIM_SLACK, solver_extra="\tvoid verif_ctor_body1(unsigned i);\n")
+    b1_cxx = (base + EXTERN + ctor_filled + "namespace vpsc {\nvoid Solver::verif_ctor_body1(unsigned i)\n" + cb1.text + "\n}\n"
+              'extern "C" void w_ctor_body1(void *s, unsigned i) { ((vpsc::Solver *)s)->verif_ctor_body1(i); }\n')
+    js.append(Job("Solver_ctor_body1", "U", spec, "h_ctor_body1", cxx=b1_cxx, enforce="w_ctor_body1", defines=["JOB_ctor_body1"], slices=[S["ctor"], cb1],
+                  domain="one arbitrary variable of a vector of any length", expect=[r'postcondition', r'assigns']))
     return js
 
 
@@ -308,7 +316,7 @@ TRUSTED = [
 ]
 ASSUMPTIONS = [
     "caller duty of IncSolver::addConstraint: the constraint is also appended to the vector the solver's cs reference aliases (both call sites in libcola/colafd.cpp push first)",
-    "Solver construction establishes m <= cs.size() and needsScaling iff some variable scale != 1 (constructor not under contract)",
+    "Solver construction establishes m == cs.size() and needsScaling iff some variable scale != 1: the first loop body is under contract (unbounded, one arbitrary variable: needsScaling accumulates scale != 1); the constructor as a whole is NOT -- cbmc's C++ front end rejects its reference-member initialisers ('bad reference initializer') and crashes (SIGSEGV in goto-check) on the second loop body's contract -- so m == cs.size(), c->needsScaling == needsScaling and the all-elements step remain assumptions",
     "NOT decided (residue): completeness (a feasible system is never flagged/thrown on; cyclic ones are flagged), finiteness (a NaN slack passes the scan), "
     "tightness of active constraints after Block::merge, histories beyond single calls, termination of IncSolver::solve's cost loop",
 ]
